@@ -27,7 +27,8 @@ ASSUMPTIONS = [
 ]
 FORMATS = ["json", "json-raw", "xml", "rdf", "provn"]     # json-raw = json with ensure_ascii=False
 READABLE = ["json", "json-raw", "xml", "rdf"]
-REQUIRED_CLASSES = {"all": ["dest:%s:%s" % (f, d) for f in FORMATS for d in ("str", "text", "binary", "path")] +
+REQUIRED_CLASSES = {"all": ["dest:%s:%s" % (f, d) for f in FORMATS for d in ("str", "text", "binary", "path", "textfile")] +
+                    ["src:xml:reread_after_failed_attempt", "src:rdf:reread_after_failed_attempt"] +
                     ["src:%s:%s" % (f, s) for f in READABLE for s in ("content_str", "content_bytes", "text", "binary", "path", "textfile")] +
                     ["read:%s:%s:%s" % (f, s, m) for f in READABLE for s in ("path", "text", "binary", "textfile") for m in ("auto", "explicit")]}
 
@@ -148,6 +149,31 @@ def check(case, ctx):
             ctx.count("dest:%s:path" % fmt_name)
         except Exception as e:
             return [exc_item(e, "serialize:" + fmt)]
+        # a text-mode FILE destination in an encoding other than UTF-8: what is written is text, the stream encodes it
+        try:
+            try:
+                s_str.encode("cp1252")
+                denc = "cp1252"
+            except UnicodeEncodeError:
+                denc = "utf-16"
+            tdest = os.path.join(wd, "dest-%s.%s.txt" % (fmt_name, denc))
+            c07.deterministic_bnodes()
+            with open(tdest, "w", encoding=denc, newline="") as fh:
+                d.serialize(fh, format=fmt, **kw)
+            with open(tdest, "r", encoding=denc, newline="") as fh:
+                s_tfile = fh.read()
+            os.remove(tdest)
+            ctx.count("dest:%s:textfile" % fmt_name)
+            if not _same_text(fmt, s_str, s_tfile):
+                items.append(_it("text_differs:%s:str_vs_textfile_%s" % (fmt_name, denc)))
+            elif fmt in ("json", "xml"):
+                try:
+                    dd = ProvDocument.deserialize(content=s_tfile, format=fmt)
+                    same_doc(fmt, dd, "%s:textfile_destination" % fmt_name)
+                except Exception as e:
+                    items.append(exc_item(e, "deserialize:%s:textfile_destination" % fmt_name))
+        except Exception as e:
+            items.append(exc_item(e, "serialize:%s:textfile" % fmt_name))
         if not isinstance(s_str, str) or not isinstance(s_text, str) or not isinstance(s_bin, bytes):
             items.append(_it("destination_type:%s" % fmt))
             continue
@@ -197,6 +223,21 @@ def check(case, ctx):
                 items.append(_it("deserialize_returned_none:%s:%s" % (fmt, name)))
                 continue
             same_doc(fmt, d2, "%s:%s" % (fmt, name))
+        # a caller-owned stream that was first tried with the WRONG format and then rewound stays usable
+        if fmt in ("xml", "rdf"):
+            own = io.BytesIO(s_bin)
+            try:
+                ProvDocument.deserialize(source=own, format="json")
+                items.append(_it("wrong_format_accepted:%s_as_json" % fmt))
+            except Exception:
+                pass
+            try:
+                own.seek(0)
+                d4 = ProvDocument.deserialize(source=own, format=fmt)
+                ctx.count("src:%s:reread_after_failed_attempt" % fmt_name)
+                same_doc(fmt, d4, "%s:reread_after_failed_attempt" % fmt_name)
+            except Exception as e:
+                items.append(exc_item(e, "deserialize:%s:reread_after_failed_attempt" % fmt_name))
         for name in ("path", "text", "binary", "textfile"):
             for mode in ("auto", "explicit"):
                 src = sources[name]()["source"]
